@@ -301,7 +301,12 @@ def run_fuzz(ctx, runs, seeded, seed):
         except OSError:
             continue
         ctx.count("fz:" + txt, True, None, n=0)
-    crashes = sorted(glob.glob(arts + "*"))
+    allarts = sorted(glob.glob(arts + "*"))
+    # slow-unit-* files are libFuzzer's note that one input took more than 10 s of wall clock (a loaded machine): not a failure
+    slow = [c for c in allarts if os.path.basename(c).startswith("slow-unit")]
+    if slow:
+        ctx.cls("fuzz:slow_unit_reports", len(slow))
+    crashes = [c for c in allarts if c not in slow]
     fail = None
     if p.returncode != 0 or crashes:
         data = open(crashes[0], "rb").read() if crashes else b""
